@@ -7,8 +7,9 @@ CRATE = "hmsg"
 RUN_MODULE = "C13.Run"
 RULE = ("exhaustive: every header field code 0 and 10..255 x 8 variant values (u, s, y, t, o, g, as, (su)); every non-empty set of "
         "the 5 unknown flag bits combined with known ones; every message type 0 and 5..255; each both through "
-        "Message::from_bytes and on a live p2p connection as the middle message of the stream normal, odd, normal (then EOF), "
-        "observed on a MessageStream; plus control messages with only known codes/flags/types. "
+        "Message::from_bytes and (quick: every code once, every other type, 30 flag sets; thorough: all) on a live p2p connection as "
+        "the middle message of the stream normal, odd, normal (then EOF), observed on a MessageStream; plus control messages with "
+        "only known codes/flags/types. "
         "non-trivial = every case (all inputs are complete, otherwise valid messages).")
 TRUSTED = ["the reference reader spec_parse/spec_stream of C11/Spec.v defines 'valid except for unknown parts'",
            "socket contract: bytes arrive in order, 0 at end of stream (framing under arbitrary splits is C14)",
@@ -61,7 +62,8 @@ def gen(rng, tier):
             for k, (vs, val, al) in enumerate(variants(e)):
                 m = with_field(e, 2, code, vs, val, al)
                 yield pline(m)
-                if k == (code % 8) or (e == "l" and k == 0):
+                on_conn = (k == code % 8) if (tier != "quick" or e == "l") else (k == 0 and code % 8 == 2)
+                if on_conn or (tier != "quick" and k == 0):
                     yield sline([n1, m, n3])
         # unknown flag bits
         for fl in range(8, 256):
@@ -73,7 +75,7 @@ def gen(rng, tier):
         for ty in [0] + list(range(5, 256)):
             m = msg(e, ty, 0, serial=2, fields=BASE, body=b"")
             yield pline(m)
-            if e == "l" or ty % 4 == 1:
+            if tier != "quick" or (e == "l" and ty % 2 == 1) or ty % 16 == 5:
                 yield sline([n1, m, n3])
         # an unknown type with a body, an unknown field next to a body
         yield sline([n1, msg(e, 9, 0, serial=2, fields=BASE + [(8, b"g", b"u")], body=lib.u32(e, 5)), n3])
